@@ -93,11 +93,12 @@ func (dm *DagModifier) WriteAt(b []byte, offset int64) (int, error) {
 	// TODO: this is currently VERY inefficient
 	// each write that happens at an offset other than the current one causes a
 	// flush to disk, and dag rewrite
-	if offset == int64(dm.writeStart) && dm.wrBuf != nil {
-		// If we would overwrite the previous write
-		if len(b) >= dm.wrBuf.Len() {
-			dm.wrBuf.Reset()
-		}
+	if offset == int64(dm.writeStart) && dm.wrBuf != nil && len(b) >= dm.wrBuf.Len() {
+		// The new write covers the whole pending buffer: drop it and continue
+		// from its start. (A shorter one is flushed below like any other
+		// repositioned write.)
+		dm.wrBuf.Reset()
+		dm.curWrOff = dm.writeStart
 	} else if uint64(offset) != dm.curWrOff {
 		size, err := dm.Size()
 		if err != nil {
